@@ -241,7 +241,7 @@ fn f_values(p: u16) -> Vec<u64> {
 
 fn p_values(ctx: &Ctx) -> Vec<u16> {
     let mut v: Vec<u32> = vec![];
-    let dense_to = if ctx.quick() { 300 } else { 2100 };
+    let dense_to = if ctx.quick() { 1000 } else { 2100 };
     v.extend(1..=dense_to);
     for k in 7..=16u32 {
         for d in [-9i64, -8, -7, -2, -1, 0, 1, 2, 7, 8, 9] {
@@ -338,7 +338,7 @@ pub fn run(ctx: &Ctx) -> i32 {
     }
     finish(ctx, &st, Finish {
         level: "exploration",
-        rule: format!("grid: P in {} values (1..={} complete, 2^k+-{{0,1,2,7,8,9}}, MTU-like and top values{}) x F in {{1,T-1,T,T+1,10T,10T+1,11T,12T+1,1000T+3,56403T+-1,2*56403T+1,56403*255*T+{{-1,0,1}}}} x WS in breakpoints Al*ceil(T/(Al*n))*K'+{{-1,0,1}} for n in {{1..6,16,17,Nmax/2,Nmax-1,Nmax}}, K' in {{10,12,101,1050,56403}}, quotient WS/(Al*x) around 2^32, 0,1,9,10, 10MiB, 2^32, 2^40, 2^64-1; compared with a u128 reference of RFC 6330 4.3 only where it says a valid configuration exists; Z monotone along WS; public API (EncoderBuilder, with_defaults) bound to the hooked derivation and round-tripped on {} points with F<=4096. EncoderBuilder as a state machine: every sequence of up to 3 (thorough 4) setter / build / clone calls over 4 packet sizes and 6 budgets, the configuration built afterwards must be the derivation for the current settings. distinct_nontrivial = points with a valid configuration where all four values were compared.", ps.len(), if ctx.quick() { 300 } else { 2100 }, if ctx.thorough() { ", every 997th above" } else { "" }, pub_cases.len()),
+        rule: format!("grid: P in {} values (1..={} complete, 2^k+-{{0,1,2,7,8,9}}, MTU-like and top values{}) x F in {{1,T-1,T,T+1,10T,10T+1,11T,12T+1,1000T+3,56403T+-1,2*56403T+1,56403*255*T+{{-1,0,1}}}} x WS in breakpoints Al*ceil(T/(Al*n))*K'+{{-1,0,1}} for n in {{1..6,16,17,Nmax/2,Nmax-1,Nmax}}, K' in {{10,12,101,1050,56403}}, quotient WS/(Al*x) around 2^32, 0,1,9,10, 10MiB, 2^32, 2^40, 2^64-1; compared with a u128 reference of RFC 6330 4.3 only where it says a valid configuration exists; Z monotone along WS; public API (EncoderBuilder, with_defaults) bound to the hooked derivation and round-tripped on {} points with F<=4096. EncoderBuilder as a state machine: every sequence of up to 3 (thorough 4) setter / build / clone calls over 4 packet sizes and 6 budgets, the configuration built afterwards must be the derivation for the current settings. distinct_nontrivial = points with a valid configuration where all four values were compared.", ps.len(), if ctx.quick() { 1000 } else { 2100 }, if ctx.thorough() { ", every 997th above" } else { "" }, pub_cases.len()),
         exhaustive: false,
         assumptions: vec!["Al = SS = 8 for P >= 64, else 1 (the implementation's choice; RFC leaves Al, SS to the application)".into(), "a configuration is valid iff some K' fits the budget for n = Nmax, Z <= 255 and T >= Al".into(), "F and WS off the breakpoint sets are not enumerated (piecewise constant derivation)".into()],
         extra: Map::new(),
